@@ -1,6 +1,7 @@
 package rules
 
 import (
+	"fmt"
 	"go/token"
 	"go/types"
 
@@ -306,4 +307,182 @@ func uniformStep(q *ssa.Phi) bool {
 		}
 	}
 	return step != nil && step != ssa.Value(q)
+}
+
+// ---------------------------------------------------------------------------
+// G5
+
+func init() {
+	register("G5", "every node the block parser puts into the tree is built for the token at hand: it is a new node (not one kept from an earlier token) and, where the node kind carries a token, that token is the loop's current token", runG5)
+}
+
+func runG5(p *an.Prog, r *an.Result) {
+	fn := p.Func("(parser.Config).parseTokens")
+	if fn == nil {
+		r.Bad("-", "parseTokens not found", token.NoPos, "anchor not resolved")
+		return
+	}
+	name := an.FuncName(fn)
+	astNode := types.Type(nil)
+	if pk := p.Package("parser"); pk != nil {
+		if t, ok := pk.Members["ASTNode"].(*ssa.Type); ok {
+			astNode = t.Type()
+		}
+	}
+	if astNode == nil {
+		r.Bad(name, "parser.ASTNode not found", an.FuncPos(fn), "anchor not resolved")
+		return
+	}
+	tokT := types.Type(nil)
+	if pk := p.Package("parser"); pk != nil {
+		if t, ok := pk.Members["Token"].(*ssa.Type); ok {
+			tokT = t.Type()
+		}
+	}
+	// the loop's current token: the element of the ranged-over parameter
+	isCurrentToken := func(v ssa.Value) bool {
+		for _, o := range an.Origins(v, stepIP(p)) {
+			o = an.Deref(o)
+			u, ok := o.(*ssa.UnOp)
+			if !ok || u.Op != token.MUL {
+				continue
+			}
+			if ia, ok := u.X.(*ssa.IndexAddr); ok && isForwardRangeIndex(ia.Index) {
+				if _, isParam := ia.X.(*ssa.Parameter); isParam {
+					return true
+				}
+			}
+			// the same through a closure's free variable
+			if fv, ok := u.X.(*ssa.FreeVar); ok && fv.Parent() != nil && fv.Parent().Parent() != nil {
+				if cell, ok := cellOfFreeVar(fv.Parent().Parent(), fv.Parent(), fv).(*ssa.Alloc); ok {
+					u = &ssa.UnOp{Op: token.MUL, X: cell}
+				}
+			}
+			// a copy of the range element kept in a local (tok := tokens[i])
+			if al, ok := u.X.(*ssa.Alloc); ok {
+				for _, sv := range an.Stores(al) {
+					if lu, ok := sv.(*ssa.UnOp); ok {
+						if ia, ok := lu.X.(*ssa.IndexAddr); ok && isForwardRangeIndex(ia.Index) {
+							return true
+						}
+					}
+				}
+			}
+		}
+		return false
+	}
+	unit := unitWithHelpers(p, fn)
+	for _, f := range unit {
+		an.EachInstr(f, func(in ssa.Instruction) {
+			c, ok := in.(*ssa.Call)
+			if !ok {
+				return
+			}
+			bi, ok := c.Call.Value.(*ssa.Builtin)
+			if !ok || bi.Name() != "append" || len(c.Call.Args) != 2 {
+				return
+			}
+			sl, ok := c.Type().Underlying().(*types.Slice)
+			if !ok || !types.Identical(sl.Elem(), astNode) && !isNamedIn(derefT(sl.Elem()), "parser", "ASTBlock") {
+				return
+			}
+			// the appended elements
+			var elems []ssa.Value
+			if s2, ok := c.Call.Args[1].(*ssa.Slice); ok {
+				if al, ok := s2.X.(*ssa.Alloc); ok && al.Referrers() != nil {
+					for _, au := range *al.Referrers() {
+						if ia, ok := au.(*ssa.IndexAddr); ok && ia.Referrers() != nil {
+							for _, uu := range *ia.Referrers() {
+								if st, ok := uu.(*ssa.Store); ok && st.Addr == ssa.Value(ia) {
+									elems = append(elems, st.Val)
+								}
+							}
+						}
+					}
+				}
+			}
+			for _, e := range elems {
+				r.Counts["nodes appended"]++
+				if mi, ok := e.(*ssa.MakeInterface); ok {
+					e = mi.X
+				}
+				bad := ""
+				var node *ssa.Alloc
+				for _, o := range an.Origins(e, stepIP(p)) {
+					o = an.Deref(o)
+					if sv := reachingStoreInBlock(o); sv != nil {
+						o = sv
+					}
+					if al, ok := o.(*ssa.Alloc); ok && al.Heap {
+						node = al
+						continue
+					}
+					if c, isC := o.(*ssa.Const); isC && c.IsNil() {
+						continue
+					}
+					bad = fmt.Sprintf("it can come from %s", describe(p, o))
+				}
+				construct := "node appended at " + p.Pos(c.Pos())
+				_ = construct
+				label := "appended " + an.TypeName(e.Type())
+				if bad != "" || node == nil {
+					r.Bad(an.FuncName(f), label+" is not a new node", c.Pos(), nonEmpty(bad, "its origin is not an allocation")+": a node kept from an earlier token carries that token's position, and shares its children")
+					continue
+				}
+				// its token, if it has one
+				okTok, hasTok := true, false
+				if tokT != nil && node.Referrers() != nil {
+					for _, u := range *node.Referrers() {
+						fa, ok := u.(*ssa.FieldAddr)
+						if !ok || !types.Identical(derefT(fa.Type()), tokT) || fa.Referrers() == nil {
+							continue
+						}
+						for _, uu := range *fa.Referrers() {
+							if st, ok := uu.(*ssa.Store); ok && st.Addr == ssa.Value(fa) {
+								hasTok = true
+								if !isCurrentToken(st.Val) {
+									okTok = false
+								}
+							}
+						}
+					}
+				}
+				switch {
+				case hasTok && !okTok:
+					r.Bad(an.FuncName(f), label+" does not carry the current token", c.Pos(), "the node's Token is not the token of this iteration: errors would be located elsewhere")
+				case hasTok:
+					r.OK(an.FuncName(f), label+" is new and carries the current token", c.Pos(), "allocated in this iteration; Token = the range element")
+				default:
+					r.OK(an.FuncName(f), label+" is new", c.Pos(), "allocated in this iteration (the kind has no token)")
+				}
+			}
+		})
+	}
+	r.Floor("nodes appended", 6)
+}
+
+func derefT(t types.Type) types.Type {
+	if pt, ok := t.Underlying().(*types.Pointer); ok {
+		return pt.Elem()
+	}
+	return t
+}
+
+// reachingStoreInBlock: v is a load of an address that the same basic block stored to earlier
+// (a variable assigned and then read): the value stored last before the load.
+func reachingStoreInBlock(v ssa.Value) ssa.Value {
+	u, ok := v.(*ssa.UnOp)
+	if !ok || u.Op != token.MUL {
+		return nil
+	}
+	var last ssa.Value
+	for _, in := range u.Block().Instrs {
+		if in == ssa.Instruction(u) {
+			break
+		}
+		if st, ok := in.(*ssa.Store); ok && st.Addr == u.X {
+			last = st.Val
+		}
+	}
+	return last
 }
